@@ -17,8 +17,11 @@ fn process_plane(input: &mut dyn Read, width: u32, height: u32, output: &mut [u8
 	let mut x;
 	let mut revcode;
 
-    let mut this_line: u32;
-    let mut last_line: u32 = 0;
+    // compute offsets on usize: width * height * 4 does not fit u32 for large bitmaps
+    let width = width as usize;
+    let height = height as usize;
+    let mut this_line: usize;
+    let mut last_line: usize = 0;
 
 	while indexh < height {
 		let mut out = (width * height * 4) - ((indexh + 1) * width * 4);
@@ -36,6 +39,10 @@ fn process_plane(input: &mut dyn Read, width: u32, height: u32, output: &mut [u8
 					collen = 0;
 				}
 				while collen > 0 {
+					// a run must fit the scanline
+					if indexw >= width {
+						return Err(Error::RdpError(RdpError::new(RdpErrorKind::InvalidData, "Run out of scanline")))
+					}
 					color = input.read_u8()? as i8;
 					output[out as usize] = color as u8;
 					out += 4;
@@ -43,6 +50,9 @@ fn process_plane(input: &mut dyn Read, width: u32, height: u32, output: &mut [u8
 					collen -= 1;
 				}
 				while replen > 0 {
+					if indexw >= width {
+						return Err(Error::RdpError(RdpError::new(RdpErrorKind::InvalidData, "Run out of scanline")))
+					}
 					output[out as usize] = color as u8;
 					out += 4;
 					indexw += 1;
@@ -62,6 +72,9 @@ fn process_plane(input: &mut dyn Read, width: u32, height: u32, output: &mut [u8
 					collen = 0;
 				}
 				while collen > 0 {
+					if indexw >= width {
+						return Err(Error::RdpError(RdpError::new(RdpErrorKind::InvalidData, "Run out of scanline")))
+					}
 					x = input.read_u8()?;
 					if x & 1 != 0{
 						x = x >> 1;
@@ -80,6 +93,9 @@ fn process_plane(input: &mut dyn Read, width: u32, height: u32, output: &mut [u8
 					collen -= 1;
 				}
 				while replen > 0 {
+					if indexw >= width {
+						return Err(Error::RdpError(RdpError::new(RdpErrorKind::InvalidData, "Run out of scanline")))
+					}
 					x = (output[(last_line + (indexw * 4)) as usize] as i32 + color as i32) as u8;
 					output[out as usize] = x;
 					out += 4;
